@@ -389,6 +389,17 @@ func prop(c Case, r *pbt.R) (err error) {
 				}
 			}
 		}
+		// The listing is the caller's own map: emptying it and putting something else into it does not reach the cache.
+		for k := range lst {
+			delete(lst, k)
+		}
+		lst["zz-the-listing-is-mine"] = nil
+		if n := ch.Count(); n < lo || n > hi {
+			return fmt.Errorf("%s: after the caller emptied the map List() had returned and stored a key of its own in it, Count() = %d, want between %d and %d (the listing shares storage with the cache)", ctx(i), n, lo, hi)
+		}
+		if _, err := ch.Get("zz-the-listing-is-mine"); err == nil {
+			return fmt.Errorf("%s: a key the caller stored in the map List() had returned is served by the cache", ctx(i))
+		}
 		return nil
 	}
 
